@@ -153,6 +153,23 @@ theorem C10_target_ready_witness :
     decodeTargetReady (encodeTargetReady [0x61] [0x6e, bar, 0x31]) = some ([0x61, bar, 0x6e], [0x31]) := by
   decide
 
+/-- **The listener consumes exactly the first frame**: a connection whose inbound bytes are a TargetReady
+frame (any header id, full tunnel id `tid` in the message, node id without '|') followed by ANY raw
+bytes `pay`, cut into chunks in ANY way — frame and payload in one segment, header split over several —:
+if the bridge is the one for `tid` (or for the header id when the message carries no id), exactly `pay`
+is forwarded to the source side, from its first byte. -/
+theorem C10_listener_exact (tid node hid pay bridge : Bytes) (hn : node.contains bar = false)
+    (hlen : (encodeTargetReady tid node).length ≤ crossnode.MaxFrameSize)
+    (hb : (if tid.isEmpty then tunnelIDToString (tunnelIDFromString hid) else tid) = bridge)
+    (s : Src)
+    (hs : s.flat = encode ⟨tunnelIDFromString hid, crossnode.FrameTypeTargetReady, encodeTargetReady tid node⟩ ++ pay) :
+    runListener bridge s = some pay := by
+  have hwf : (⟨tunnelIDFromString hid, crossnode.FrameTypeTargetReady, encodeTargetReady tid node⟩ : Frame).WF :=
+    ⟨tunnelIDFromString_length hid, (by decide : crossnode.FrameTypeTargetReady < 256), hlen⟩
+  obtain ⟨-, h1, h2, -⟩ := C10_encode_decode _ hwf s pay hs
+  unfold runListener
+  simp only [h1, h2, beq_self_eq_true, if_true, C10_target_ready_roundtrip tid node hn, hb]
+
 /-! ### Streams -/
 
 /-- **Write segmentation**: `FrameStream.Write(p)` on an open stream, for every `p` (empty, one frame,
